@@ -61,13 +61,85 @@ func decodeJSONAs(text string, out ty) (any, error) {
 	return nil, fmt.Errorf("no JSON form for the declared type %s", out)
 }
 
+// jsonOf: the JSON text of a value of the universe, as the message producers write it. A nil map is
+// written as {} like an empty one: the two are one value for this workload (concatenating map
+// chunks builds a fresh map), and JSON would tell them apart.
+func jsonOf(v any) (string, error) {
+	var b strings.Builder
+	if err := writeJSON(&b, v); err != nil {
+		return "", err
+	}
+	return b.String(), nil
+}
+
+func writeJSON(b *strings.Builder, v any) error {
+	switch x := v.(type) {
+	case nil:
+		b.WriteString("null")
+	case string:
+		q, err := json.Marshal(x)
+		if err != nil {
+			return err
+		}
+		b.Write(q)
+	case map[string]any:
+		b.WriteByte('{')
+		for i, k := range mon.SortedKeys(x) {
+			if i > 0 {
+				b.WriteByte(',')
+			}
+			if err := writeJSON(b, k); err != nil {
+				return err
+			}
+			b.WriteByte(':')
+			if err := writeJSON(b, x[k]); err != nil {
+				return err
+			}
+		}
+		b.WriteByte('}')
+	case *Rec:
+		if x == nil {
+			b.WriteString("null")
+			return nil
+		}
+		return writeJSON(b, *x)
+	case Rec:
+		b.WriteString(`{"S":`)
+		if err := writeJSON(b, x.S); err != nil {
+			return err
+		}
+		b.WriteString(`,"X":`)
+		if err := writeJSON(b, x.X); err != nil {
+			return err
+		}
+		b.WriteString(`,"P":`)
+		if err := writeJSON(b, x.P); err != nil {
+			return err
+		}
+		b.WriteString(`,"M":`)
+		if err := writeJSON(b, x.M); err != nil {
+			return err
+		}
+		b.WriteByte('}')
+	case Lbl:
+		b.WriteString(`{"L":`)
+		if err := writeJSON(b, x.L); err != nil {
+			return err
+		}
+		b.WriteByte('}')
+	default:
+		return fmt.Errorf("no JSON form for a %T", v)
+	}
+	return nil
+}
+
 // jsonRoundTrip: what a value becomes when it travels as JSON text and is parsed into `out`.
 func jsonRoundTrip(v any, out ty) (any, error) {
-	b, err := json.Marshal(v)
+	t, err := jsonOf(v)
 	if err != nil {
 		return nil, err
 	}
-	return decodeJSONAs(string(b), out)
+	return decodeJSONAs(t, out)
 }
 
 // wrapJSON puts the text under the parser's key path.
@@ -162,11 +234,11 @@ func mkMsgProducer[I any](n *tnode, env *tenv) *compose.Lambda {
 		if typedTrace {
 			fmt.Printf("TRACE %s_m (message producer) runs on %s\n", n.Key, canon(any(in)))
 		}
-		b, err := json.Marshal(n.body(any(in)))
+		t, err := jsonOf(n.body(any(in)))
 		if err != nil {
 			return "", fmt.Errorf("harness: %w", err)
 		}
-		return wrapJSON(string(b), n.MsgPath), nil
+		return wrapJSON(t, n.MsgPath), nil
 	}
 	whole := func(text string) *schema.Message { return mkMsgWhole(n, text, schema.Assistant) }
 	emit := func(text string) (*schema.StreamReader[*schema.Message], error) {
@@ -512,6 +584,9 @@ func (g *tgen) genPre(n *tnode) {
 
 // normPre re-establishes what a pipeline node needs after the generator has changed its output side.
 func (g *tgen) normPre(n *tnode) {
+	if n.Conv != "" && (n.Out != n.In || n.Dyn != dSame || n.Sub != nil || n.Pass) {
+		n.Conv = "" // re-typed by the generator: an ordinary node
+	}
 	if n.Pre == "" {
 		return
 	}
